@@ -12,6 +12,7 @@ import (
 	"git.metabarcoding.org/obitools/obitools4/obitools4/pkg/obifp"
 	"git.metabarcoding.org/obitools/obitools4/obitools4/pkg/obikmer"
 	"git.metabarcoding.org/obitools/obitools4/obitools4/pkg/obiseq"
+	"git.metabarcoding.org/obitools/obitools4/obitools4/pkg/obitools/obiconsensus"
 )
 
 type c19seq struct {
@@ -20,13 +21,14 @@ type c19seq struct {
 }
 
 type c19case struct {
-	Kind   string   `json:"kind"` // dbg | kmap | c4
+	Kind   string   `json:"kind"` // dbg | kmap | c4 | cons | ksim
 	K      int      `json:"k"`
 	Seqs   []c19seq `json:"seqs"`   // dbg
 	W      int      `json:"w"`      // kmap: 64|128|256
 	Sparse bool     `json:"sparse"` // kmap
 	S      string   `json:"s"`      // kmap, c4
 	Reuse  bool     `json:"reuse"`  // c4: reuse buffer / table of the previous call
+	Refs   []string `json:"refs"`   // ksim: indexed reference sequences; S = query
 }
 
 type c19node struct {
@@ -58,6 +60,89 @@ type c19obs struct {
 	IsNil    bool       `json:"isnil"`
 	// c4
 	Table [][2]int `json:"table,omitempty"` // (code, count) for the non-zero cells
+	// cons: obiconsensus.BuildConsensus(seqs, id, -1, 0, false, "") — k estimated by the tool, counts from the count attribute
+	ConsK     int  `json:"consk"`
+	ConsFlag  bool `json:"consflag"` // attribute obiconsensus_consensus
+	ConsW     int  `json:"consw"`    // attribute obiconsensus_weight
+	ConsGraph int  `json:"consgraph"`
+	ConsMaxW  int  `json:"consmaxw"`
+	// ksim: obikmersim path: NewKmerMap[Uint128](refs, k, sparse, -1).Query(query) and .Query(rc query): match count per reference (-1: no match)
+	Match   []int `json:"match,omitempty"`
+	MatchRC []int `json:"matchrc,omitempty"`
+}
+
+func c19cons(c c19case) (o c19obs) {
+	o.Kind = "cons"
+	seqs := make(obiseq.BioSequenceSlice, 0, len(c.Seqs))
+	for i, s := range c.Seqs {
+		bs := obiseq.NewBioSequence("s"+strconv.Itoa(i), []byte(s.S), "")
+		bs.SetAttribute("count", s.Count) // as read from a file: the count attribute
+		seqs = append(seqs, bs)
+	}
+	seq, err := obiconsensus.BuildConsensus(seqs, "cons", -1, 0, false, "")
+	if err != nil || seq == nil {
+		o.ConsErr = true
+		if err != nil {
+			o.Err = err.Error()
+		}
+		return o
+	}
+	o.Consensus = seq.String()
+	if v, ok := seq.GetIntAttribute("obiconsensus_kmer_size"); ok {
+		o.ConsK = v
+	}
+	if v, ok := seq.GetBoolAttribute("obiconsensus_consensus"); ok {
+		o.ConsFlag = v
+	}
+	if v, ok := seq.GetIntAttribute("obiconsensus_weight"); ok {
+		o.ConsW = v
+	}
+	if v, ok := seq.GetIntAttribute("obiconsensus_full_graph_size"); ok {
+		o.ConsGraph = v
+	}
+	if v, ok := seq.GetIntAttribute("obiconsensus_kmer_max_occur"); ok {
+		o.ConsMaxW = v
+	}
+	return o
+}
+
+func c19rc(s string) string {
+	comp := map[byte]byte{'a': 't', 'c': 'g', 'g': 'c', 't': 'a', 'u': 'a', 'r': 'y', 'y': 'r', 's': 's', 'w': 'w', 'k': 'm', 'm': 'k', 'b': 'v', 'd': 'h', 'h': 'd', 'v': 'b', 'n': 'n'}
+	r := make([]byte, len(s))
+	for i := 0; i < len(s); i++ {
+		ch := s[len(s)-1-i]
+		if ch >= 'A' && ch <= 'Z' {
+			ch += 32
+		}
+		r[i] = comp[ch]
+	}
+	return string(r)
+}
+
+func c19ksim(c c19case) (o c19obs) {
+	o.Kind = "ksim"
+	refs := make(obiseq.BioSequenceSlice, 0, len(c.Refs))
+	for i, s := range c.Refs {
+		refs = append(refs, obiseq.NewBioSequence("r"+strconv.Itoa(i), []byte(s), ""))
+	}
+	km := obikmer.NewKmerMap[obifp.Uint128](refs, uint(c.K), c.Sparse, -1)
+	o.Kmersize = int(km.Kmersize)
+	o.SparseAt = km.SparseAt
+	one := func(q string) []int {
+		m := km.Query(obiseq.NewBioSequence("q", []byte(q), ""))
+		r := make([]int, len(refs))
+		for i, ref := range refs {
+			if n, ok := m[ref]; ok {
+				r[i] = n
+			} else {
+				r[i] = -1
+			}
+		}
+		return r
+	}
+	o.Match = one(c.S)
+	o.MatchRC = one(c19rc(c.S))
+	return o
 }
 
 func u64s(l []uint64) []string {
@@ -221,6 +306,10 @@ func c19run(c c19case) (o c19obs) {
 		}
 	case "c4":
 		return c19c4(c)
+	case "cons":
+		return c19cons(c)
+	case "ksim":
+		return c19ksim(c)
 	}
 	return c19obs{Kind: "panic", Err: "unknown case kind"}
 }
